@@ -127,6 +127,8 @@ def condense_dataset(
                   meta_prefix="")
 
     h5_cond.require_group("logs")
+    # For non-HDF5 input (.tdms), nothing has been copied so far.
+    h5_cond.require_group("events")
 
     # scalar features
     feats_sc = ds.features_scalar
